@@ -25,6 +25,7 @@ import (
 	"mosn.io/api"
 	v2 "mosn.io/mosn/pkg/config/v2"
 	"mosn.io/mosn/pkg/log"
+	"mosn.io/mosn/pkg/router"
 	"mosn.io/mosn/pkg/types"
 	"mosn.io/mosn/pkg/upstream/cluster"
 	"mosn.io/pkg/variable"
@@ -135,9 +136,19 @@ func c05OneConfig(c *lab.Ctx, rng *lab.Rand, pol types.LoadBalancerType, subset 
 		}
 	}
 	hs := cluster.NewHostSet(hosts)
-	var lb types.LoadBalancer
+	var lb, lbNoFallback types.LoadBalancer
 	if subset {
-		lb = cluster.NewSubsetLoadBalancer(info, hs)
+		// both subset builders (the pre-indexing one is what clusters use by default), alternating with the weight kind
+		build := func(i types.ClusterInfo, h types.HostSet) types.LoadBalancer {
+			return cluster.NewSubsetLoadBalancer(i, h)
+		}
+		if (int(pat)+wk)%2 == 0 {
+			build = cluster.NewSubsetLoadBalancerPreIndex
+		}
+		lb = build(info, hs)
+		cc2 := cc
+		cc2.LBSubSetConfig = v2.LBSubsetConfig{FallBackPolicy: 0 /* no fallback */, SubsetSelectors: [][]string{{"zone"}}}
+		lbNoFallback = build(cluster.NewClusterInfo(cc2), hs)
 	} else {
 		lb = cluster.NewLoadBalancer(info, hs)
 	}
@@ -190,6 +201,83 @@ func c05OneConfig(c *lab.Ctx, rng *lab.Rand, pol types.LoadBalancerType, subset 
 					map[string]interface{}{"policy": pol, "subset": subset, "n": n, "weights": ws, "unhealthy_mask": pat, "pick": p})
 			}
 		}
+	}
+	// phase 2: the health of the hosts changes WITHOUT a host-set update (what health checks do to a published set) - the balancers
+	// built under the first pattern are asked again under a second one; with the subset wrapper the requests now carry criteria,
+	// on a balancer with the any-endpoint fallback and on one with no fallback, both built under the FIRST pattern
+	if n > 0 {
+		mask := uint64(1)<<uint(n) - 1
+		pat2 := []uint64{0, ^pat & mask, rng.Uint64() & mask}[int(pat)%3]
+		for i := range hosts {
+			if pat2>>uint(i)&1 == 1 {
+				hosts[i].SetHealthFlag(api.FAILED_ACTIVE_HC)
+			} else {
+				hosts[i].ClearHealthFlag(api.FAILED_ACTIVE_HC)
+			}
+		}
+		healthyIn := func(zone string) (members, healthy int) {
+			for i := range hosts {
+				if zone == "" || []string{"a", "b"}[i%2] == zone {
+					members++
+					if pat2>>uint(i)&1 == 0 {
+						healthy++
+					}
+				}
+			}
+			return
+		}
+		lbs := []types.LoadBalancer{lb}
+		names := []string{"any-endpoint"}
+		if subset && lbNoFallback != nil {
+			lbs = append(lbs, lbNoFallback)
+			names = append(names, "no-fallback")
+		}
+		for li, l := range lbs {
+			for p := 0; p < picks/2+2; p++ {
+				ctx := newLbCtx()
+				ctx.route = newHashRoute(rng.Uint64())
+				zone := ""
+				if subset {
+					zone = []string{"a", "b", ""}[p%3]
+					if li == 1 && zone == "" {
+						zone = "a"
+					}
+					if zone != "" {
+						ctx.mmc = router.NewMetadataMatchCriteriaImpl(map[string]string{"zone": zone})
+					}
+				}
+				members, healthy := healthyIn(zone)
+				if zone != "" && members == 0 {
+					continue // no such subset: the fallback policy decides (C15's subject)
+				}
+				h := l.ChooseHost(ctx)
+				c.Eval(1)
+				c.Count("picks-after-health-change", 1)
+				sig2 := sigBase + "/after-health-change"
+				if subset {
+					sig2 += "/" + names[li]
+				}
+				wit := map[string]interface{}{"policy": pol, "subset": subset, "n": n, "weights": ws, "unhealthy_mask_at_build": pat, "unhealthy_mask_now": pat2, "criteria_zone": zone}
+				if h == nil {
+					if healthy > 0 {
+						c.Violation("nil-only-when-none-healthy", "C05/nil-while-healthy-exists/"+sig2,
+							fmt.Sprintf("policy %s subset=%v (%s): %d hosts, unhealthy mask %b when the balancer was built, %b now, criteria zone=%q: no host returned although %d healthy host(s) qualify", pol, subset, names[li], n, pat, pat2, zone, healthy), wit)
+						break
+					}
+					continue
+				}
+				if _, ok := member[h.AddressString()]; !ok {
+					c.Violation("answer-is-member", "C05/foreign-host/"+sig2, fmt.Sprintf("policy %s: returned %s which is not in the host set", pol, h.AddressString()), wit)
+					break
+				}
+				if !h.Health() && healthy > 0 {
+					c.Violation("healthy-when-healthy-exists", "C05/unhealthy-returned/"+sig2,
+						fmt.Sprintf("policy %s subset=%v (%s): unhealthy mask %b at build, %b now, criteria zone=%q: returned unhealthy host %s although %d healthy host(s) qualify", pol, subset, names[li], pat, pat2, zone, h.AddressString(), healthy), wit)
+					break
+				}
+			}
+		}
+		c.Distinct(fmt.Sprintf("%s|%v|%d|phase2|%b>%b", pol, subset, n, pat, pat2))
 	}
 	c.Distinct(fmt.Sprintf("%s|%v|%d|%d|%b", pol, subset, n, wk, pat))
 	if pat == 5 && n == 3 && wk == 1 {
